@@ -23,7 +23,7 @@ IMM, MUT = 0, 1
 
 
 def plan(tier):
-    n = 100 if tier == "quick" else 1500
+    n = 300 if tier == "quick" else 1500
     return [{"kind": "hyp", "n": n} for _ in range(16)]
 
 
